@@ -22,7 +22,8 @@ def unary_union_tee(g):
 class C20(vlib.Spec):
     model_vo = ["theories/Partition/Rewrite.vo"]
     props_vo = "theories/Props/C20.vo"
-    theorems = ["C20_remove_intermediate_contracts_partial", "C20_remove_intermediate_spec_partial"]
+    theorems = ["C20_remove_intermediate_contracts_partial", "C20_remove_intermediate_spec_partial",
+                "C20_eliminate_preserves_wiring"]
     crate, group, binary = "h_partition", "dfir", "h_partition"
     imports = ("From Coq Require Import List String NArith.\n"
                "From HV Require Import Partition.Base Partition.Model Partition.Rewrite.\n"
@@ -96,6 +97,10 @@ class C20(vlib.Spec):
         if removed != unary_union_tee(be) or set(ids(ae)) - set(ids(be)):
             py_bits |= 2
         pieces.append("c20_rewrite %s %s %s" % (G(be), vlib.g_list("%d" % x for x in removed), G(ae)))
+        # the multi-step model (unary unions first, then unary tees, in node order) predicts the result
+        order = [n["id"] for nm in ("union", "tee") for n in be["nodes"]
+                 if n["k"] == "op" and n["name"] == nm and n["has_inst"] and len(n["preds"]) == 1 and len(n["succs"]) == 1]
+        pieces.append("c20_elim_model %s %s %s" % (G(be), vlib.g_list("%d" % x for x in order), G(ae)))
         rt = res["roundtrip"]
         if isinstance(rt, dict) and "orig" in rt:
             orig = rt["orig"]
